@@ -726,4 +726,6 @@ def run(ctx):
     ctx.guard(r11, ctx, prog)
     ctx.guard(r12, ctx, prog)
     ctx.guard(r13, ctx, prog)
+    from rules import C20_replay
+    ctx.guard(C20_replay.r14, ctx, prog)
     return prog
